@@ -9,6 +9,7 @@ pub mod pushcond;
 pub mod redact;
 pub mod sign;
 pub mod uri;
+pub mod xmatrix;
 
 pub struct Report {
     pub bound: String,
@@ -32,6 +33,7 @@ pub fn run(name: &str, tier: &str) -> Option<Value> {
         "redact" => redact::run(tier).to_json(),
         "pushcond" => pushcond::run(tier).to_json(),
         "cjson" => cjson::run(tier).to_json(),
+        "xmatrix" => xmatrix::run(tier).to_json(),
         "sign" => sign::run(tier).to_json(),
         "uri" => uri::run(tier).to_json(),
         _ => return None,
